@@ -159,3 +159,7 @@ Proof.
   - destruct sw; [|reflexivity]. unfold qft_swaps. generalize (seq 0 (N / 2)). intros l.
     induction l; simpl; congruence.
 Qed.
+
+Lemma sequence_defined N sw tc :
+  ((1 <= N)%nat -> qft_gate_sequence N sw tc = Some (qft_body N sw tc)) /\ ((N < 1)%nat -> qft_gate_sequence N sw tc = None).
+Proof. split; [apply qft_gate_sequence_some| apply qft_gate_sequence_none]. Qed.
